@@ -167,11 +167,14 @@ func ruleWindowLimit(p *Prog, r *Out) {
 			}
 			c, _ := p.canonCmp(b, nil)
 			// rejecting form must be  w > MAX  <=>  MAX - w + 1 <= 0 : constant term 2^31
-			var coef int64
+			// (the window may be spelled as a sum: what is left plus the change)
+			allNeg := len(c.L.T) >= 1
 			for _, co := range c.L.T {
-				coef = co
+				if co != -1 {
+					allNeg = false
+				}
 			}
-			strict := len(c.L.T) == 1 && coef == -1 && c.L.C == 1<<31
+			strict := allNeg && c.L.C == 1<<31
 			r.check(strict, key, p.pos(b.Pos()), "rejects only values above 2^31-1",
 				fmt.Sprintf("%s tests `%s`, which also rejects a window of exactly 2^31-1; RFC 7540 s6.9.1 makes only a window above 2^31-1 an error, so a legal WINDOW_UPDATE is answered with FLOW_CONTROL_ERROR", fn, p.text(b)))
 			return true
